@@ -649,6 +649,57 @@ def run_hub(case):
   return R(None, True, (len(uses), how))
 
 
+
+# ------------------------- one hub standing in several coefficient positions of one filter
+TWICE = OrderedDict([
+  # name -> (builder from the hub k, numerator reference, denominator reference, uses one call takes)
+  ("allpass [k,1]/[1,k]", (lambda k: ZFilter([k, 1], [1, k]), {0: lambda c: c, 1: lambda c: 1}, {0: lambda c: 1, 1: lambda c: c}, 2)),
+  ("[k,0,k]", (lambda k: ZFilter([k, 0, k]), {0: lambda c: c, 2: lambda c: c}, {0: lambda c: 1}, 2)),
+  ("{0:k,1:1}/{0:1,2:k}", (lambda k: ZFilter({0: k, 1: 1}, {0: 1, 2: k}), {0: lambda c: c, 1: lambda c: 1}, {0: lambda c: 1, 2: lambda c: c}, 2)),
+  ("[k,k,k]/[1,k]", (lambda k: ZFilter([k, k, k], [1, k]), {0: lambda c: c, 1: lambda c: c, 2: lambda c: c}, {0: lambda c: 1, 1: lambda c: c}, 4)),
+])
+
+
+def gen_twice(run):
+  for name in TWICE:
+    for how in ("direct", "copy", "copy-of-copy", "copy-then-original", "original-then-copy"):
+      yield (name, how)
+
+
+def run_twice(case):
+  """The same hub object in several coefficient positions (a time-varying all-pass): the filter, and any copy
+  of it, uses the n-th coefficient value in every one of those positions at output n; one read per output."""
+  name, how = case
+  build, rn, rd, per_call = TWICE[name]
+  N = 7
+  cvals = [F(2) + F(n, 3) for n in range(N + 2)]
+  src = CountingSource([Q(v) for v in cvals], name="hub-source")
+  runs = {"direct": 1, "copy": 1, "copy-of-copy": 1}.get(how, 2)
+  k = _thub(Stream(src), per_call * runs)
+  x = syms("x", N)
+  try:
+    f = build(k)
+    if how == "direct": seq = [f]
+    elif how == "copy": seq = [f.copy()]
+    elif how == "copy-of-copy": seq = [f.copy().copy()]
+    elif how == "copy-then-original": seq = [f.copy(), f]
+    else:
+      g = f.copy()
+      seq = [f, g]
+    gots = [[Sym.lift(v) for v in h(list(x), zero=Q(0))] for h in seq]
+  except Exception as exc:
+    return bad("tv-twice:exception:" + type(exc).__name__, "%s (%s) raised" % (name, how), None, str(exc)[:200], True)
+  num = {d: [F(fn(c)) for c in cvals] for d, fn in rn.items()}
+  den = {d: [F(fn(c)) for c in cvals] for d, fn in rd.items()}
+  exp = tv_apply(num, den, x)
+  for got in gots:
+    if len(got) != len(exp) or any(g_ is None or not (g_ == e_) for g_, e_ in zip(got, exp)):
+      return bad("tv-twice:value", "%s (%s): every position holding the hub uses the n-th coefficient value at output n"
+                 % (name, how), exp[:4], got[:4], True)
+  if src.pulls > N + 1:
+    return bad("tv-twice:pulls", "the hub's source must be read once per output sample", N, src.pulls, True)
+  return R(None, True, (name, how))
+
 # ------------------------- one filter object holding a hub, called once per use ("stereo")
 def gen_stereo(run):
   for u in HUB_USES:
@@ -869,6 +920,7 @@ KINDS = OrderedDict([
   ("sparse", Kind(gen_sparse, run_sparse, chunk=8, rule="stream coefficients on delays 0..2 and 9..12, 30 input samples")),
   ("blockwise", Kind(gen_blockwise, run_blockwise, chunk=20,
                      rule="one stream-bearing filter object applied to two consecutive blocks; values and pull counts")),
+  ("hub-twice", Kind(gen_twice, run_twice, chunk=4, rule="one hub in several coefficient positions of one filter x direct / copy / copy of copy / copy and original")),
   ("stereo", Kind(gen_stereo, run_stereo, chunk=4, rule="one filter object holding a coefficient hub, called once per use")),
   ("shared-den", Kind(gen_shared_den, run_shared_den, chunk=4, rule="sums / differences of filters built on one denominator object")),
   ("cancel", Kind(gen_cancel, run_cancel, chunk=4,
